@@ -33,6 +33,10 @@ THEOREMS = [
     "Nix.C09.invert_power_twice",
     "Nix.C09.split_compound_sequence",
     "Nix.C09.split_compound_roundtrip",
+    "Nix.C09.atomic_exact",
+    "Nix.C09.sanitizer_atoms",
+    "Nix.C09.sanitizer_blanks",
+    "Nix.C09.sanitizer_micro_spellings",
 ]
 ASSUMPTIONS = [
     "Python's `re` engine is replaced by a hand-written backtracking matcher for the regex shapes units.py "
